@@ -196,6 +196,41 @@ def random_space(rng, nenv, max_cells=4, graph=None):
     return {"type": "graph", "nodes": nodes, "edges": edges}
 
 
+def large_model(rng, graph=None):
+    """Sizes beyond the small ones used everywhere else: 4-5 species, 9-14 reactions (18-28 channels), 2-3 environments,
+    a grid of 18-36 cells (any boundary mode) or a graph of 10-20 nodes of uneven degree."""
+    labels = LABELS[:rng.choice([4, 5])]
+    envs = ["a", "b", "c"][:rng.choice([2, 3])]
+    species = [{"label": l, "D": per_env(rng, envs, DS)} for l in labels]
+    if rng.random() < 0.5:
+        species[rng.randrange(len(species))]["chstt"] = {rng.choice(envs): True}
+    reactions = []
+    for _ in range(rng.randint(9, 14)):
+        r = {"sub": random_side(rng, labels, 2), "prod": random_side(rng, labels, 2), "kf": per_env(rng, envs, KS)}
+        if rng.random() < 0.7:
+            r["kr"] = per_env(rng, envs, KS)
+        reactions.append(r)
+    if graph is None:
+        graph = rng.random() < 0.5
+    if not graph:
+        w, h, d = rng.choice([(4, 3, 2), (9, 2, 1), (3, 3, 3), (18, 1, 1), (6, 6, 1), (2, 3, 5)])
+        n = w * h * d
+        space = {"type": "grid", "w": w, "h": h, "d": d, "bc": tuple(rng.random() < 0.4 for _ in range(3)), "hh": rng.choice([1, 2]),
+                 "cell_env": [rng.randrange(len(envs)) for _ in range(n)]}
+    else:
+        n = rng.randint(10, 20)
+        nodes = [{"hh": rng.choice([1, 1, 2]), "env": rng.randrange(len(envs))} for _ in range(n)]
+        edges = [{"i": i, "j": i + 1, "sfc": Fr(1), "dst": Fr(1)} for i in range(n - 2)]          # a chain (last node isolated) ...
+        hub = rng.randrange(n - 1)
+        for j in rng.sample(range(n - 1), 5):                                                        # ... plus a hub of high degree
+            if j != hub and not any({e["i"], e["j"]} == {hub, j} for e in edges):
+                edges.append({"i": max(hub, j), "j": min(hub, j), "sfc": Fr(2), "dst": Fr(3, 2)})
+        space = {"type": "graph", "nodes": nodes, "edges": edges}
+    m = Model(species, reactions, envs, space, None)
+    m.state = [[rng.choice([0, 0, 1, 3, 7]) for _ in range(m.ncells())] for _ in labels]
+    return m
+
+
 def random_model(rng, max_species=3, max_reactions=2, max_cells=4, max_order=3, max_mol=6, graph=None,
                  multigraph=False, chem_p=0.25, big_p=0.0):
     ns = rng.randint(1, max_species)
